@@ -417,10 +417,11 @@ def schemaExtension (n : Nat) : PI Unit :=
       meets := true
       directives n true
     if (← peek) == some .lCurly then
+      meets := true
       bump "L_CURLY"
       let len ← srcLen
       let has ← peekWhileKindFlagLoop .name rootOperationTypeDefinition (len + 3) false
-      meets := meets || has
+      if !has then err
       expect .rCurly "R_CURLY"
     if !meets then err)
 
